@@ -18,6 +18,8 @@ class PhaseMonitor(Monitor):
         self.ctx = ctx
         self.shadow: dict[str, dict[str, float]] = {}
         self.tainted = False
+        self.last_end: dict = {}  # basis -> atom -> end of the latest pulse seen on it
+        self.sbar: dict = {}      # basis -> atom -> time its latest phase shift took effect (lower bound)
         self.subset_shift = False
         self.multi_basis_channels = False
 
@@ -57,6 +59,9 @@ class PhaseMonitor(Monitor):
             phi = float(ev.args[0])
             for q in set(tgs):
                 self.shadow[basis][q] += phi
+                # the shift acts when the atom was last driven (lower bound: the pulses this monitor saw scheduled)
+                sb = self.sbar.setdefault(basis, {})
+                sb[q] = max(sb.get(q, 0), self.last_end.get(basis, {}).get(q, 0))
             if len(set(tgs)) < len(qids):
                 self.subset_shift = True
             ctx.count("explicit_shifts")
@@ -83,6 +88,19 @@ class PhaseMonitor(Monitor):
                     req_phase = float(ev.args[2] if len(ev.args) > 2 else ev.kwargs["phase"]) % TWO_PI
                     req_pps = float(ev.kwargs.get("post_phase_shift", 0.0)) % TWO_PI
                 cpd = bool(op.get("cpd"))
+                if slot is not None:
+                    # barrier kept by the monitor itself (independent of the sequence's own bookkeeping)
+                    sb, le = self.sbar.setdefault(basis, {}), self.last_end.setdefault(basis, {})
+                    mine = max([sb.get(q, 0) for q in tgs] + [0])
+                    ctx.count("barrier_shadow_checks")
+                    if slot["ti"] < mine and name != "add_dmm_detuning":
+                        ctx.violation("barrier", f"{name} on {ch}: pulse starts at {slot['ti']} although a phase shift of its "
+                                      f"targets took effect at {mine}, when an earlier pulse on them ended", "barrier-shadow")
+                    for q in tgs:
+                        le[q] = max(le.get(q, 0), slot["tf"])
+                    if req_pps and not cpd:
+                        for q in tgs:
+                            sb[q] = max(sb.get(q, 0), le[q])
                 if slot is not None and req_phase is not None and name != "add_dmm_detuning":
                     ref0 = {round(self.shadow[basis][q] % TWO_PI, 9) for q in tgs}
                     ctx.count("pulse_phases_checked")
